@@ -149,7 +149,7 @@ def strace_events(folder, statefile, backend="json", inject=None, names=None):
     that name); `inject=(syscall, index)` SIGKILLs the child on entry of exactly that call."""
     names = names or FILES
     out = tempfile.mktemp(prefix="vptrace")
-    env = dict(os.environ, PYTHONPATH=str(VERIF / "harness"), PYTHONDONTWRITEBYTECODE="1")
+    env = dict(os.environ, PYTHONPATH=str(VERIF / "harness") + (os.pathsep + os.environ["PYTHONPATH"] if os.environ.get("PYTHONPATH") else ""), PYTHONDONTWRITEBYTECODE="1")
     child = subprocess.Popen([PY, str(CHILD), backend, folder, statefile, "wait"], stdout=subprocess.PIPE, stderr=subprocess.DEVNULL, text=True, env=env)
     tracer = None
     try:
@@ -316,7 +316,8 @@ def run_json_truncations(chk: Check, base, full, r_old, r_new, L1, L2, step):
             where = ""
             if name == FILES[3]:
                 full_bytes = open(os.path.join(full, name), "rb").read()
-                where = ":inside-the-header-line" if b <= full_bytes.index(b"\n") else ":after-the-header-line"
+                # a cut exactly at the end of the header text (its newline missing) is a complete header with zero rows: same situation as any later cut
+                where = ":inside-the-header-line" if b < full_bytes.index(b"\n") else ":after-the-header-line"
             sig = f"C06/json/hybrid@prefix:{name}{where}"
             chk.fail(f"restore with {name} cut after {b}/{n} bytes returns a mixture: {detail}",
                      {"case": {"kind": "trunc", "file": name, "bytes": b, "file_states": vec}}, signature=sig)
@@ -451,6 +452,70 @@ def run_sqlite(chk: Check, s1, s2, label="short-history"):
                 chk.disagree("SQLite failed-save outcome != BlackIt.Checkpoint.sqlRun", {"statement": st, "impl": out, "model": ans})
 
 
+def run_sqlite_kills(chk: Check, s1, s2, label, max_kills):
+    """the process dies during a SQLite save on top of a previous checkpoint: a child performs the real save under strace and is SIGKILLed at the
+    system calls that touch the database or its journal (all of them, or an even sample of at most `max_kills`); the folder is then loaded with
+    the library's loader: it must give exactly the previous or the new checkpoint ("a failed save leaves the previous checkpoint loadable")"""
+    from black_it.utils import sqlite3_checkpointing as sq
+
+    def load(folder):
+        try:
+            return deep(sq.load_calibrator_state(folder))
+        except Exception as e:  # noqa: BLE001
+            return "error:" + type(e).__name__ + ":" + str(e)[:60]
+
+    base = tempfile.mkdtemp(prefix="vpc06qk")
+    full = tempfile.mkdtemp(prefix="vpc06qk")
+    statefile = tempfile.mktemp(prefix="vpc06state")
+    work = [base, full]
+    try:
+        sq.save_calibrator_state(base, *sqlite_args(s1)); LP = load(base)
+        sq.save_calibrator_state(full, *sqlite_args(s1)); sq.save_calibrator_state(full, *sqlite_args(s2)); LN = load(full)
+        pickle.dump(tuple(sqlite_args(s2)), open(statefile, "wb"))
+        names = ["checkpoint.sqlite-journal", "checkpoint.sqlite-wal", "checkpoint.sqlite-shm", "checkpoint.sqlite"]
+        probe = tempfile.mkdtemp(prefix="vpc06qp"); shutil.rmtree(probe); shutil.copytree(base, probe); work.append(probe)
+        events, saved = strace_events(probe, statefile, backend="sqlite", names=names)
+        if not saved or not events:
+            raise HarnessError("baseline strace of a real SQLite save produced no events")
+        if load(probe) != LN:
+            chk.disagree("a complete SQLite save in a child process does not load as the new checkpoint", {"label": label})
+        chk.extra.setdefault("traces", []).append({"label": "sqlite:" + label, "events": len(events), "by_call": {k: sum(1 for e in events if e[0] == k) for k in sorted({e[0] for e in events})}})
+        idx = list(range(len(events)))
+        if len(idx) > max_kills:
+            stride = len(idx) / max_kills
+            idx = sorted({int(i * stride) for i in range(max_kills)} | {0, len(events) - 1, len(events) - 2})
+        jobs = [(g, events[g][0], events[g][3], events[g][1]) for g in idx]
+
+        def one(job):
+            g, nm, j, f = job
+            d = tempfile.mkdtemp(prefix="vpc06qd"); shutil.rmtree(d); shutil.copytree(base, d)
+            ev, saved = strace_events(d, statefile, backend="sqlite", inject=(nm, j), names=names)
+            return job, d, saved, len(ev)
+
+        with ThreadPoolExecutor(max_workers=12) as ex:
+            results = list(ex.map(one, jobs))
+        for (g, nm, j, f), d, saved, nev in results:
+            work.append(d)
+            if saved:
+                chk.disagree("injected kill did not stop the SQLite save child", {"event": [g, nm, j, f]})
+                continue
+            left = sorted(os.listdir(d))
+            got = load(d)
+            out = "new" if got == LN else "prev" if got == LP else ("error" if isinstance(got, str) else "hybrid")
+            chk.case(["sqlite-kill", label, g], True, {"backend": "sqlite", "history": label, "killed_at": f"{nm} #{g}/{len(events)} on {f}", "files_left": left, "restore": out})
+            chk.count(f"sqlite_kill:{label}:{out}")
+            if out == "hybrid":
+                chk.fail(f"SQLite save killed at {nm} #{g} on {f} ({label}): restore returns a mixture", {"case": {"kind": "sqlite_kill", "label": label, "event": [g, nm, f]}})
+            elif out == "error":
+                chk.fail(f"SQLite save killed at {nm} #{g} of {len(events)} on {f} ({label}; files left: {left}): the previous checkpoint is no longer loadable ({got[:90]})",
+                         {"case": {"kind": "sqlite_kill", "label": label, "event": [g, nm, f]}})
+    finally:
+        with contextlib.suppress(FileNotFoundError):
+            os.remove(statefile)
+        for d in work:
+            shutil.rmtree(d, ignore_errors=True)
+
+
 def run(chk: Check):
     rng = chk.rng
     chk.rule = ("JSON/CSV/HDF5 back-end: a child process performs the real save of state s2 on a folder holding the complete checkpoint of s1 (same run, consecutive "
@@ -483,6 +548,9 @@ def run(chk: Check):
     # the same with a long history: a previous checkpoint of several megabytes of incompressible series (larger than SQLite's page cache),
     # so that a transaction that is rolled back has really touched the file
     run_sqlite(chk, big_state(s1, 1500, 11), big_state(s2, 1700, 12), label="long-history")
+    # ... and the process dying (not an exception) during the SQLite save, at the system calls on the database and its journal
+    run_sqlite_kills(chk, s1, s2, "short-history", max_kills=40 if chk.tier == "quick" else 400)
+    run_sqlite_kills(chk, big_state(s1, 300, 21), big_state(s2, 340, 22), "long-history", max_kills=40 if chk.tier == "quick" else 600)
     chk.extra["exhaustive"] = True
 
 
